@@ -610,7 +610,13 @@ func genSortLarge(r *rng, id string, cnt counters, emit func(line, out string)) 
 		}
 		if lowRep {
 			lcp := make([]int32, n)
+			for i := range lcp {
+				lcp[i] = int32(-9 + i*7) // previous contents must not matter
+			}
 			suffix.LCP(t, sa, nil, lcp)
+			if n > 0 && lcp[0] != 0 {
+				e.find("C09", "LCP wrong", "LCP", fmt.Sprintf("family=%d n=%d rank=0", fam, n))
+			}
 			for i := 1; i < n; i += 1 + r.intn(3) {
 				if int(lcp[i]) != naiveLCP(t[sa[i-1]:], t[sa[i]:]) {
 					e.find("C09", "LCP wrong", "LCP", fmt.Sprintf("family=%d n=%d rank=%d", fam, n, i))
